@@ -19,6 +19,9 @@ CLAIMS = {
  "C09": ("In transactional mode every flush on every path of a sender iteration is requested by the transaction state machine or happens with the in-transaction flag known false (loop invariant established inductively); the flag is cleared only after a successful flush; the state machine flushes inside a transaction only on EXEC; the resume position never lands between MULTI and EXEC.", "3/C09"),
 }
 
+ 
+CLAIMS["C11"] = ("For every function of the module that derives a cluster slot: CRC-16 table equal to the XMODEM table computed in the checker, update-step shape, 16383 mask on every return, and — on all return paths — the hashed substring is key[s+1:e] with s/e first-match scans for '{' and the following '}', exactly when both are found and the tag is non-empty, the whole key otherwise; no other function computes slots; sibling functions agree. For the recognised scan idiom this is HASH_SLOT's definition; other idioms are reported undecided.", "3/C11")
+
 NOT_YET = "check not built yet in this revision (planned, see DESIGN.md section 3)"
 
 def main():
